@@ -10,7 +10,7 @@ every arrival) as a program of the kernel model `K` (`OnlVerif/Kernel`).  Here n
 actions the FifoServer LTS of the port (`OnlVerif/Net/Fifo.lean`, `Net/Port.lean`) *accepts*, so the admissibility
 rules G1–G3 of the LTS are consequences of the kernel model, not assumptions, for this device.
 
-Scope: plain `Port` (`qlimit = None`, no RED, `element_id` falsy), `rate > 0`, one source process with non-negative
+Scope: plain `Port` (`qlimit = None`, no RED, `element_id` falsy), every `rate` (no transmission delay when `rate ≤ 0`), one source process with non-negative
 gaps (zero gaps = bursts, arrivals exactly at departure instants are included), exact rational time.
 -/
 
@@ -18,36 +18,38 @@ namespace C09K
 open PortOnK PortK
 
 /-- **The departure recurrence holds for the Port as a kernel process, for every workload, with no admissibility
-assumption.**  For every finite arrival list with non-negative gaps, every size table and every `rate > 0`:
+assumption.**  For every finite arrival list with non-negative gaps, every size table and every `rate`:
 `run()` of the kernel model on the two spawned processes returns (agenda empty) within `4·n + 4` steps, and the
 `out.put(packet)` observations of the trace are exactly `(id_k, d_k)` in arrival order with
-`d_k = max(a_k, d_{k-1}) + 8·size_k/rate`, `a_k` = sum of the first `k` gaps (`PortOnK.departures`). -/
-theorem port_on_kernel_departures (size : Int → Nat) (rate : ℚ) (hr : 0 < rate) (arrivals : List (ℚ × Int))
+`d_k = max(a_k, d_{k-1}) + 8·size_k/rate` (`+ 0` when `rate ≤ 0`), `a_k` = sum of the first `k + 1` gaps
+(`PortOnK.departures`, spelled out by index in `departure_recurrence`). -/
+theorem port_on_kernel_departures (size : Int → Nat) (rate : ℚ) (arrivals : List (ℚ × Int))
     (hg : ∀ x ∈ arrivals, 0 ≤ x.1) (fuel n : Nat) (hn : 4 * arrivals.length + 4 ≤ n) :
     ∃ sF, runAll (body size rate) (fuel + 1) n (initState arrivals) = .returned .none sF ∧ sF.agenda = [] ∧
       outsOf sF.trace = departures size rate none 0 arrivals := by
   have h0 : Inv size rate arrivals (initState arrivals) (a0 arrivals) := inv_init arrivals hg
   have hmu : (a0 arrivals).mu < n := by
     simp [A.mu, a0, PPhase.mu, SPhase.mu]; omega
-  obtain ⟨sF, aF, h1, h2, h3⟩ := run_returns hr fuel n _ _ h0 hmu
+  obtain ⟨sF, aF, h1, h2, h3⟩ := run_returns fuel n _ _ h0 hmu
   exact ⟨sF, h1, h3, (inv_final h2 h3).1⟩
 
 /-- **What the list `departures` is** (the C09 recurrence, by index): it has one entry per arrival; entry `k` carries
-the id of arrival `k` and the instant `max(a_k, d_{k-1}) + 8·size_k/rate` (just `a_0 + 8·size_0/rate` for `k = 0`),
-where `a_k` = the sum of the first `k + 1` gaps and `d_{k-1}` = the instant of entry `k - 1`. -/
-theorem departure_recurrence (size : Int → Nat) (rate : ℚ) (hr : 0 < rate) (arrivals : List (ℚ × Int)) (k : Nat)
+the id of arrival `k` and the instant `max(a_k, d_{k-1}) + tx_k` (just `a_0 + tx_0` for `k = 0`), where `a_k` = the sum
+of the first `k + 1` gaps, `d_{k-1}` = the instant of entry `k - 1`, and `tx_k = 8·size_k/rate` when `rate > 0`,
+`0` otherwise (`if self.rate > 0`). -/
+theorem departure_recurrence (size : Int → Nat) (rate : ℚ) (arrivals : List (ℚ × Int)) (k : Nat)
     (hk : k < arrivals.length) :
     (departures size rate none 0 arrivals).length = arrivals.length ∧
     ((departures size rate none 0 arrivals).getD k (0, 0)).1 = (arrivals.getD k (0, 0)).2 ∧
     ((departures size rate none 0 arrivals).getD k (0, 0)).2 =
       (if k = 0 then arrivalAt 0 arrivals 0
        else max (arrivalAt 0 arrivals k) ((departures size rate none 0 arrivals).getD (k - 1) (0, 0)).2) +
-        ((size (arrivals.getD k (0, 0)).2 * 8 : ℕ) : ℚ) / rate := by
+        (if 0 < rate then ((size (arrivals.getD k (0, 0)).2 * 8 : ℕ) : ℚ) / rate else 0) := by
   have h := departures_getD size rate arrivals none 0 k hk
   refine ⟨departures_length size rate arrivals none 0, h.1, ?_⟩
   rw [h.2]
-  have htx : ∀ id, txDelay size rate id = ((size id * 8 : ℕ) : ℚ) / rate := by
-    intro id; unfold txDelay txTime; rw [zero_eq', if_pos hr]; rfl
+  have htx : ∀ id, txDelay size rate id = if 0 < rate then ((size id * 8 : ℕ) : ℚ) / rate else 0 := by
+    intro id; unfold txDelay txTime; rw [zero_eq']; rfl
   rw [htx]
   by_cases h0 : k = 0
   · simp [h0]
@@ -72,6 +74,12 @@ example : (finalState (runAll (body (fun i => if i % 2 = 0 then 10 else 5) (40 :
     some (departures (fun i => if i % 2 = 0 then 10 else 5) (40 : ℚ) none 0 [(0, 1), (1, 2), (7, 3)]) := by
   decide +kernel
 
+/-- `rate = 0`: no transmission delay, a packet leaves in the burst that takes it (a burst of three leaves at once) -/
+example : (finalState (runAll (body (fun _ => 1) (0 : ℚ)) 1 16 (initState [(1, 1), (0, 2), (0, 3), (2, 4)]))).map
+    (fun s => (s.agenda.length, outsOf s.trace)) = some (0, [(1, 1), (2, 1), (3, 1), (4, 3)]) ∧
+    departures (fun _ => 1) (0 : ℚ) none 0 [(1, 1), (0, 2), (0, 3), (2, 4)] = [(1, 1), (2, 1), (3, 1), (4, 3)] := by
+  decide +kernel
+
 /-- with one step less than `4·n + 4` the run is not finished: the bound of `port_on_kernel_departures` is exact -/
 example : (finalState (runAll (body (fun _ => 1) (8 : ℚ)) 1 11 (initState [(1, 1), (0, 2)]))).isNone = true ∧
     (finalState (runAll (body (fun _ => 1) (8 : ℚ)) 1 12 (initState [(1, 1), (0, 2)]))).isSome = true := by
@@ -81,19 +89,19 @@ example : (finalState (runAll (body (fun _ => 1) (8 : ℚ)) 1 11 (initState [(1,
 kernel step end in `s'`.  Then there is a (possibly empty) sequence of LTS actions that the Port LTS *accepts* from
 the abstraction of `s`, that ends exactly in the abstraction of `s'` (the step commutes with `absPort`), and whose
 departures are exactly the `out.put` observations the kernel step appended to the trace. -/
-theorem port_on_kernel_step_refines (size : Int → Nat) (rate : ℚ) (hr : 0 < rate) (arrivals : List (ℚ × Int))
+theorem port_on_kernel_step_refines (size : Int → Nat) (rate : ℚ) (arrivals : List (ℚ × Int))
     (hg : ∀ x ∈ arrivals, 0 ≤ x.1) (fuel : Nat) (s s' : KState ℚ (PSt ℚ))
     (hreach : KReach (body size rate) (fuel + 1) (initState arrivals) s)
     (hstep : (step (body size rate) (fuel + 1) s).state? = some s') :
     step (body size rate) (fuel + 1) s = .ok s' ∧
     ∃ acts ins outs, Fifo.runActs (Port.dev (cfg rate)) (absPort size s) acts = .ok (absPort size s', ins, outs) ∧
       (outsOf s'.trace).map (·.1.toNat) = (outsOf s.trace).map (·.1.toNat) ++ outs := by
-  obtain ⟨a, _, hi, _⟩ := reach_inv hr fuel hg hreach
+  obtain ⟨a, _, hi, _⟩ := reach_inv fuel hg hreach
   cases hp : popMin s.agenda with
   | none => simp [step, hp, StepResult.state?] at hstep
   | some qr =>
     obtain ⟨q, rest⟩ := qr
-    obtain ⟨s'', a', new, h1, h2, -, h4, acts, insI, -, h6⟩ := inv_step hr fuel hi hp
+    obtain ⟨s'', a', new, h1, h2, -, h4, acts, insI, -, h6⟩ := inv_step fuel hi hp
     rw [h1] at hstep
     simp only [StepResult.state?, Option.some.injEq] at hstep
     subst hstep
@@ -113,13 +121,13 @@ example : (match runAll (body (fun _ => 1) (8 : ℚ)) 1 11 (initState [(1, 1), (
 Port LTS from its initial state: the LTS accepts some action sequence that ends in `absPort s`, in which the accepted
 packets are the first `packets_received` arrivals and the departed packets are the `out.put` observations of the
 kernel trace, in order. -/
-theorem port_on_kernel_refines_lts (size : Int → Nat) (rate : ℚ) (hr : 0 < rate) (arrivals : List (ℚ × Int))
+theorem port_on_kernel_refines_lts (size : Int → Nat) (rate : ℚ) (arrivals : List (ℚ × Int))
     (hg : ∀ x ∈ arrivals, 0 ≤ x.1) (fuel : Nat) (s : KState ℚ (PSt ℚ))
     (hreach : KReach (body size rate) (fuel + 1) (initState arrivals) s) :
     ∃ acts, Fifo.runActs (Port.dev (cfg rate)) (Fifo.init ({ avg := 0 } : PortSt ℚ) 0) acts =
       .ok (absPort size s, ((arrivals.take (cellInt s cReceived).toNat).map (·.2)).map Int.toNat,
            (outsOf s.trace).map (·.1.toNat)) := by
-  obtain ⟨a, acts, hi, hrun⟩ := reach_inv hr fuel hg hreach
+  obtain ⟨a, acts, hi, hrun⟩ := reach_inv fuel hg hreach
   refine ⟨acts, ?_⟩
   rw [absPort_eq hi.k, ← putIds_eq hi]
   exact hrun
@@ -127,22 +135,22 @@ theorem port_on_kernel_refines_lts (size : Int → Nat) (rate : ℚ) (hr : 0 < r
 /-- **Corollary (C09 `fifo_and_conservation` on the kernel)**: at every reachable kernel state the packets handed
 to `put` so far are, in order, exactly the packets logged by `out.put` followed by the packets the port holds
 (handed over / in transmission / waiting in the store): FIFO, nothing lost, nothing duplicated. -/
-theorem kernel_fifo_and_conservation (size : Int → Nat) (rate : ℚ) (hr : 0 < rate) (arrivals : List (ℚ × Int))
+theorem kernel_fifo_and_conservation (size : Int → Nat) (rate : ℚ) (arrivals : List (ℚ × Int))
     (hg : ∀ x ∈ arrivals, 0 ≤ x.1) (fuel : Nat) (s : KState ℚ (PSt ℚ))
     (hreach : KReach (body size rate) (fuel + 1) (initState arrivals) s) :
     ((arrivals.take (cellInt s cReceived).toNat).map (·.2)).map Int.toNat =
       (outsOf s.trace).map (·.1.toNat) ++ Fifo.held (absPort size s) := by
-  obtain ⟨acts, h⟩ := port_on_kernel_refines_lts size rate hr arrivals hg fuel s hreach
+  obtain ⟨acts, h⟩ := port_on_kernel_refines_lts size rate arrivals hg fuel s hreach
   have := (Fifo.run_conserves (Port.dev (cfg rate)) (Port.idPreserving _) acts _ _ _ _ (Fifo.init_shape _ _) h).1
   simpa [Fifo.init_held] using this
 
 /-- **Corollary (C09 `byte_occupancy_eq_held` on the kernel)**: at every reachable kernel state the attribute
 `byte_size` (shared cell 0) equals the bytes of the packets the port holds. -/
-theorem kernel_byte_occupancy_eq_held (size : Int → Nat) (rate : ℚ) (hr : 0 < rate) (arrivals : List (ℚ × Int))
+theorem kernel_byte_occupancy_eq_held (size : Int → Nat) (rate : ℚ) (arrivals : List (ℚ × Int))
     (hg : ∀ x ∈ arrivals, 0 ≤ x.1) (fuel : Nat) (s : KState ℚ (PSt ℚ))
     (hreach : KReach (body size rate) (fuel + 1) (initState arrivals) s) :
     cellInt s cByteSize = Port.heldBytes (absPort size s) := by
-  obtain ⟨acts, h⟩ := port_on_kernel_refines_lts size rate hr arrivals hg fuel s hreach
+  obtain ⟨acts, h⟩ := port_on_kernel_refines_lts size rate arrivals hg fuel s hreach
   have := (Port.run_inv (cfg rate) acts _ _ _ _ (Port.init_inv _ 0) h).bytes
   rw [absPort_dev] at this
   exact this
@@ -151,18 +159,18 @@ theorem kernel_byte_occupancy_eq_held (size : Int → Nat) (rate : ℚ) (hr : 0 
 whenever a kernel step of this program advances the clock, the LTS accepts the corresponding `tick`, hence (C09
 `never_idle_with_backlog`, `departs_exactly_when_due`) no packet is handed over and unprocessed, no hand-off is
 pending, and no transmission ends earlier than the new instant. -/
-theorem kernel_clock_advance_is_admissible (size : Int → Nat) (rate : ℚ) (hr : 0 < rate) (arrivals : List (ℚ × Int))
+theorem kernel_clock_advance_is_admissible (size : Int → Nat) (rate : ℚ) (arrivals : List (ℚ × Int))
     (hg : ∀ x ∈ arrivals, 0 ≤ x.1) (fuel : Nat) (s s' : KState ℚ (PSt ℚ))
     (hreach : KReach (body size rate) (fuel + 1) (initState arrivals) s)
     (hstep : (step (body size rate) (fuel + 1) s).state? = some s') (hadv : s.now < s'.now) :
     (absPort size s).handed = none ∧ ¬ ((absPort size s).getPending = true ∧ (absPort size s).items ≠ []) ∧
       ∀ p due k, (absPort size s).tx = some (p, due, k) → s'.now ≤ due := by
-  obtain ⟨a, _, hi, _⟩ := reach_inv hr fuel hg hreach
+  obtain ⟨a, _, hi, _⟩ := reach_inv fuel hg hreach
   cases hp : popMin s.agenda with
   | none => simp [step, hp, StepResult.state?] at hstep
   | some qr =>
     obtain ⟨q, rest⟩ := qr
-    obtain ⟨s'', a', new, h1, h2, h3, h4, -⟩ := kstep hr fuel hi.k hi.a hp
+    obtain ⟨s'', a', new, h1, h2, h3, h4, -⟩ := kstep fuel hi.k hi.a hp
     rw [h1] at hstep
     simp only [StepResult.state?, Option.some.injEq] at hstep
     subst hstep
